@@ -1,0 +1,166 @@
+//! verification hooks (feature `verif` only): an RwLock with the API subset used by this crate,
+//! whose acquisitions are reported to a thread-local hook before they are performed.
+#![allow(missing_docs)]
+use std::cell::RefCell;
+use std::mem::ManuallyDrop;
+use std::ops::{Deref, DerefMut};
+use std::panic::Location;
+use std::sync::Arc;
+use std::time::Duration;
+
+#[derive(Clone, Copy, Debug, PartialEq, Eq)]
+pub enum Mode {
+    Read,
+    Write,
+}
+#[derive(Clone, Copy, Debug, PartialEq, Eq)]
+pub enum Kind {
+    Block,
+    Try,
+    Timed,
+}
+#[derive(Clone, Copy, Debug)]
+pub struct Req {
+    pub addr: usize,
+    pub class: &'static str,
+    pub mode: Mode,
+    pub kind: Kind,
+    pub site: &'static Location<'static>,
+}
+pub trait LockHook: Send + Sync {
+    /// true: granted (the real lock is free for this mode); false: refused (Try/Timed only)
+    fn acquire(&self, req: &Req) -> bool;
+    fn release(&self, addr: usize, mode: Mode);
+}
+thread_local! { static HOOK: RefCell<Option<Arc<dyn LockHook>>> = const { RefCell::new(None) }; }
+pub fn set_thread_hook(h: Option<Arc<dyn LockHook>>) {
+    HOOK.with(|c| *c.borrow_mut() = h);
+}
+fn hook() -> Option<Arc<dyn LockHook>> {
+    HOOK.with(|c| c.borrow().clone())
+}
+
+pub struct RwLock<T>(parking_lot::RwLock<T>);
+pub struct ReadGuard<'a, T> {
+    g: ManuallyDrop<parking_lot::RwLockReadGuard<'a, T>>,
+    addr: usize,
+    h: Option<Arc<dyn LockHook>>,
+}
+pub struct WriteGuard<'a, T> {
+    g: ManuallyDrop<parking_lot::RwLockWriteGuard<'a, T>>,
+    addr: usize,
+    h: Option<Arc<dyn LockHook>>,
+}
+impl<T> Deref for ReadGuard<'_, T> {
+    type Target = T;
+    fn deref(&self) -> &T {
+        &self.g
+    }
+}
+impl<T> Deref for WriteGuard<'_, T> {
+    type Target = T;
+    fn deref(&self) -> &T {
+        &self.g
+    }
+}
+impl<T> DerefMut for WriteGuard<'_, T> {
+    fn deref_mut(&mut self) -> &mut T {
+        &mut self.g
+    }
+}
+impl<T> Drop for ReadGuard<'_, T> {
+    fn drop(&mut self) {
+        unsafe { ManuallyDrop::drop(&mut self.g) };
+        if let Some(h) = &self.h {
+            h.release(self.addr, Mode::Read);
+        }
+    }
+}
+impl<T> Drop for WriteGuard<'_, T> {
+    fn drop(&mut self) {
+        unsafe { ManuallyDrop::drop(&mut self.g) };
+        if let Some(h) = &self.h {
+            h.release(self.addr, Mode::Write);
+        }
+    }
+}
+
+impl<T> RwLock<T> {
+    pub fn new(v: T) -> Self {
+        Self(parking_lot::RwLock::new(v))
+    }
+    fn req(&self, mode: Mode, kind: Kind, site: &'static Location<'static>) -> Req {
+        Req { addr: self as *const _ as usize, class: std::any::type_name::<T>(), mode, kind, site }
+    }
+    fn rd(&self, kind: Kind, site: &'static Location<'static>, d: Option<Duration>) -> Option<ReadGuard<'_, T>> {
+        let addr = self as *const _ as usize;
+        match hook() {
+            Some(h) => {
+                if h.acquire(&self.req(Mode::Read, kind, site)) {
+                    let g = self.0.try_read().expect("verif: lock model admitted a read the real lock refused");
+                    Some(ReadGuard { g: ManuallyDrop::new(g), addr, h: Some(h) })
+                } else {
+                    None
+                }
+            }
+            None => {
+                let g = match (kind, d) {
+                    (Kind::Block, _) => Some(self.0.read()),
+                    (Kind::Try, _) => self.0.try_read(),
+                    (Kind::Timed, Some(d)) => self.0.try_read_for(d),
+                    _ => unreachable!(),
+                };
+                g.map(|g| ReadGuard { g: ManuallyDrop::new(g), addr, h: None })
+            }
+        }
+    }
+    fn wr(&self, kind: Kind, site: &'static Location<'static>, d: Option<Duration>) -> Option<WriteGuard<'_, T>> {
+        let addr = self as *const _ as usize;
+        match hook() {
+            Some(h) => {
+                if h.acquire(&self.req(Mode::Write, kind, site)) {
+                    let g = self.0.try_write().expect("verif: lock model admitted a write the real lock refused");
+                    Some(WriteGuard { g: ManuallyDrop::new(g), addr, h: Some(h) })
+                } else {
+                    None
+                }
+            }
+            None => {
+                let g = match (kind, d) {
+                    (Kind::Block, _) => Some(self.0.write()),
+                    (Kind::Try, _) => self.0.try_write(),
+                    (Kind::Timed, Some(d)) => self.0.try_write_for(d),
+                    _ => unreachable!(),
+                };
+                g.map(|g| WriteGuard { g: ManuallyDrop::new(g), addr, h: None })
+            }
+        }
+    }
+    #[track_caller]
+    pub fn read(&self) -> ReadGuard<'_, T> {
+        self.rd(Kind::Block, Location::caller(), None).unwrap()
+    }
+    #[track_caller]
+    pub fn write(&self) -> WriteGuard<'_, T> {
+        self.wr(Kind::Block, Location::caller(), None).unwrap()
+    }
+    #[track_caller]
+    pub fn try_write(&self) -> Option<WriteGuard<'_, T>> {
+        self.wr(Kind::Try, Location::caller(), None)
+    }
+    #[track_caller]
+    pub fn try_read_for(&self, d: Duration) -> Option<ReadGuard<'_, T>> {
+        self.rd(Kind::Timed, Location::caller(), Some(d))
+    }
+    #[track_caller]
+    pub fn try_write_for(&self, d: Duration) -> Option<WriteGuard<'_, T>> {
+        self.wr(Kind::Timed, Location::caller(), Some(d))
+    }
+}
+
+impl crate::AutosarModel {
+    /// all keys of the referrer map, including keys nobody would think of asking for
+    pub fn verif_reference_origin_keys(&self) -> Vec<String> {
+        self.0.read().reference_origins.keys().cloned().collect()
+    }
+}
